@@ -682,9 +682,18 @@ func runNodeFull(c caseIn) *caseOut {
 	defer cancel()
 	als := make([]*node.NodeIDAllocator, n)
 	held := make([]int, n)
+	out.Threads = make([]thrOut, n) // the same history in the vocabulary of Model/IdGen (script, candidates tried, results), replayed on the model
 	for i := range als {
 		als[i] = node.NewNodeIDAllocator(under)
+		out.Threads[i] = thrOut{Log: [][2]int{}, Cands: []int{}, Ops: []string{}}
 	}
+	defer func() {
+		for k := node.NodeIDMin; k <= node.NodeIDMax; k++ {
+			if ex, _ := under.Exists(fmt.Sprintf("%snode-%04d", node.NodeIDKeyPrefix, k)); ex {
+				out.Markers = append(out.Markers, k)
+			}
+		}
+	}()
 	fail := func(step int, f string, a ...any) *caseOut {
 		out.PropOK, out.PropMsg = false, fmt.Sprintf("step %d of %v (free slots %v): ", step, c.Sched, c.Pre)+fmt.Sprintf(f, a...)
 		return out
@@ -703,6 +712,22 @@ func runNodeFull(c caseIn) *caseOut {
 				}
 			}
 			id, err := als[i].AllocateNodeID(ctx)
+			{ // one SetNX per candidate, in range order, up to and including the slot handed out
+				th := &out.Threads[i]
+				th.Ops = append(th.Ops, "G")
+				last, got := node.NodeIDMax, 0
+				fmt.Sscanf(id, "node-%d", &got)
+				if err == nil && got >= node.NodeIDMin && got <= node.NodeIDMax {
+					last = got
+					th.Log = append(th.Log, [2]int{0, got})
+				} else {
+					th.Log = append(th.Log, [2]int{1, 0})
+				}
+				for k := node.NodeIDMin; k <= last; k++ {
+					th.Cands = append(th.Cands, k)
+					out.Sched = append(out.Sched, i)
+				}
+			}
 			if want == 0 {
 				if err == nil || id != "" {
 					return fail(step, "allocator %d was handed %q although every slot is held by a live node", i, id)
@@ -718,8 +743,16 @@ func runNodeFull(c caseIn) *caseOut {
 			}
 			out.NodeIDs = append(out.NodeIDs, fmt.Sprintf("%d:%s", i, id))
 		} else {
+			was := als[i].GetNodeID()
 			if err := als[i].Release(); err != nil {
 				return fail(step, "Release of allocator %d failed: %v", i, err)
+			}
+			out.Threads[i].Ops = append(out.Threads[i].Ops, "R")
+			if held[i] != 0 { // (a Release with nothing held makes no storage call: no step, no log entry)
+				out.Threads[i].Log = append(out.Threads[i].Log, [2]int{2, held[i]})
+				out.Sched = append(out.Sched, i)
+			} else if was != "" {
+				return fail(step, "allocator %d holds nothing but remembers %q: its Release acts on a slot it does not own", i, was)
 			}
 			if held[i] != 0 {
 				delete(expect, held[i])
